@@ -30,6 +30,8 @@ def field_shape(f):
     """expected wire shape of one field from the sidecar (independent layout oracle)"""
     if f['attr'] == 'skip':
         return ('eps',)
+    if f['attr'] == 'encoded_as' and f.get('rep_shape'):
+        return f['rep_shape']       # a representation type of the corpus' own (not the compact one)
     if f['attr'] in ('compact', 'encoded_as'):
         if f['ty'] in COMPACT_OF:
             return COMPACT_OF[f['ty']]
@@ -132,6 +134,17 @@ class Gen:
                   'fields': [self.fld(0, 7, 'none', False), {'name': '1', 'ty': 'PhantomData<u8>', 'shape': ('eps',), 'attr': 'skip', 'mel': True}]})
         D.append({'kind': 'struct', 'name': 'S%d' % len(D), 'named': False, 'generics': [], 'transparent': True,
                   'fields': [{'name': '0', 'ty': 'PhantomData<u8>', 'shape': ('eps',), 'attr': 'none', 'mel': True}, self.fld(1, 8, 'none', False)]})
+        # encoded_as with a representation type that is NOT the compact one (AsFixed: a u32 field goes over the wire
+        # fixed-width instead of compact): alone, among other fields (the multi-field code path), in a transparent struct
+        def rep_field(i, named):
+            return {'name': ('f%d' % i) if named else str(i), 'ty': 'u32', 'shape': ('prim', 'u32'), 'attr': 'encoded_as', 'mel': True,
+                    'rep': 'AsFixed', 'rep_shape': ('prim', 'u32')}
+        D.append({'kind': 'struct', 'name': 'S%d' % len(D), 'named': False, 'generics': [], 'transparent': False, 'fields': [rep_field(0, False)]})
+        D.append({'kind': 'struct', 'name': 'S%d' % len(D), 'named': True, 'generics': [], 'transparent': False,
+                  'fields': [self.fld(0, 0, 'none', True), rep_field(1, True), self.fld(2, 7, 'none', True)]})
+        D.append({'kind': 'struct', 'name': 'S%d' % len(D), 'named': False, 'generics': [], 'transparent': False,
+                  'fields': [rep_field(0, False), self.fld(1, 2, 'compact', False)]})
+        D.append({'kind': 'struct', 'name': 'S%d' % len(D), 'named': False, 'generics': [], 'transparent': True, 'fields': [rep_field(0, False)]})
         # a one-variant unit enum is zero-sized but its decoder reads (and can reject) a byte: the companion of a transparent struct
         zname = 'E%d' % len(D)
         zv = [{'name': 'Only', 'fields': [], 'skip': False, 'src': 'implicit', 'kind': 'unit'}]
@@ -181,6 +194,16 @@ class Gen:
                 self.assign_indices(vs)
                 D.append({'kind': 'enum', 'name': 'E%d' % len(D), 'variants': vs, 'generics': []})
                 count += 1
+        # a variant field with the non-compact representation type; a skipped variant whose index attribute comes first
+        vs = [{'name': 'A', 'fields': [{'name': '0', 'ty': 'u32', 'shape': ('prim', 'u32'), 'attr': 'encoded_as', 'mel': True, 'rep': 'AsFixed', 'rep_shape': ('prim', 'u32')},
+                                        self.fld(1, 1, 'none', False)], 'skip': False, 'src': 'implicit', 'kind': 'tuple'},
+              {'name': 'B', 'fields': [self.fld(0, 0, 'none', False)], 'skip': True, 'src': 'attr', 'attr_index': 9, 'kind': 'tuple', 'index_first': True},
+              {'name': 'C', 'fields': [], 'skip': False, 'src': 'implicit', 'kind': 'unit'},
+              {'name': 'D', 'fields': [], 'skip': True, 'src': 'attr', 'attr_index': 0, 'kind': 'unit', 'index_first': True},
+              {'name': 'E', 'fields': [], 'skip': False, 'src': 'attr', 'attr_index': 77, 'kind': 'unit'}]
+        self.assign_indices(vs)
+        D.append({'kind': 'enum', 'name': 'E%d' % len(D), 'variants': vs, 'generics': []})
+        count += 1
         # all variants skipped (with and without fields), generic enum
         D.append({'kind': 'enum', 'name': 'E%d' % len(D), 'generics': [], 'variants': [
             {'name': 'A', 'fields': [], 'skip': True, 'src': 'implicit', 'kind': 'unit', 'index': None},
@@ -236,14 +259,28 @@ def render(defs):
     out = ['#![allow(dead_code, unused_imports, clippy::all)]',
            '// generated by /verif/scalecheck/corpusgen.py — do not edit',
            'pub mod m {',
-           'use parity_scale_codec::{Decode, DecodeWithMemTracking, Encode, MaxEncodedLen, CompactAs, HasCompact};',
-           'use core::marker::PhantomData;', '']
+           'use parity_scale_codec::{Decode, DecodeWithMemTracking, Encode, MaxEncodedLen, CompactAs, HasCompact, EncodeAsRef, Input, Output, Error};',
+           'use core::marker::PhantomData;', '',
+           '// a representation type for #[codec(encoded_as = "AsFixed")] on u32 fields: the field goes over the wire as a plain fixed-width u32 instead of a compact',
+           'pub struct AsFixed(pub u32);',
+           "pub struct AsFixedRef<'a>(pub &'a u32);",
+           "impl<'a> EncodeAsRef<'a, u32> for AsFixed { type RefType = AsFixedRef<'a>; }",
+           "impl<'a> From<&'a u32> for AsFixedRef<'a> { fn from(x: &'a u32) -> Self { AsFixedRef(x) } }",
+           "impl<'a> Encode for AsFixedRef<'a> { fn encode_to<W: Output + ?Sized>(&self, dest: &mut W) { self.0.encode_to(dest) } }",
+           "impl<'a> parity_scale_codec::EncodeLike for AsFixedRef<'a> {}",
+           'impl Decode for AsFixed { fn decode<I: Input>(input: &mut I) -> Result<Self, Error> { Ok(AsFixed(u32::decode(input)?)) } }',
+           'impl Encode for AsFixed { fn encode_to<W: Output + ?Sized>(&self, dest: &mut W) { self.0.encode_to(dest) } }',
+           'impl DecodeWithMemTracking for AsFixed {}',
+           'impl From<AsFixed> for u32 { fn from(x: AsFixed) -> u32 { x.0 } }',
+           'impl MaxEncodedLen for AsFixed { fn max_encoded_len() -> usize { 4 } }', '']
 
     def fattr(f):
         if f['attr'] == 'skip':
             return '#[codec(skip)] '
         if f['attr'] == 'compact':
             return '#[codec(compact)] '
+        if f['attr'] == 'encoded_as' and f.get('rep'):
+            return '#[codec(encoded_as = "%s")] ' % f['rep']
         if f['attr'] == 'encoded_as':
             return '#[codec(encoded_as = "<%s as HasCompact>::Type")] ' % f['ty']
         return ''
@@ -282,10 +319,14 @@ def render(defs):
             out.append('pub enum %s%s {' % (d['name'], gen))
             for v in d['variants']:
                 line = '    '
-                if v['skip']:
-                    line += '#[codec(skip)] '
-                if 'attr_index' in v:
-                    line += '#[codec(index = %d)] ' % v['attr_index']
+                if v['skip'] and 'attr_index' in v and v.get('index_first'):
+                    # two separate attributes, the index first: both must be seen
+                    line += '#[codec(index = %d)] #[codec(skip)] ' % v['attr_index']
+                else:
+                    if v['skip']:
+                        line += '#[codec(skip)] '
+                    if 'attr_index' in v:
+                        line += '#[codec(index = %d)] ' % v['attr_index']
                 line += v['name'] + vfields_src(v['fields'], v['kind'])
                 if 'discr' in v:
                     line += ' = %d' % v['discr']
